@@ -136,6 +136,12 @@ func (i ImplicitlyMarshaledEntityUID) MarshalJSON() ([]byte, error) {
 	return json.Marshal(s)
 }
 
+// UnmarshalJSON accepts what EntityUID accepts: the implicit form and the explicit __entity form. (Without it the
+// defined type has no decoder of its own and the explicit form silently decoded to the zero EntityUID.)
+func (i *ImplicitlyMarshaledEntityUID) UnmarshalJSON(b []byte) error {
+	return (*EntityUID)(i).UnmarshalJSON(b)
+}
+
 type EntityUIDSet = mapset.ImmutableMapSet[EntityUID]
 
 // NewEntityUIDSet returns an immutable EntityUIDSet ready for use.
